@@ -296,7 +296,7 @@ def run():
     paths += list(deep.values())
     ctx.leg('A', properties=props + ['LeavesNeedParents', 'WitnessUntouched'], histories_exhaustive=len(paths) - len(deep), histories_simulated=len(deep))
     idx = list(enumerate(paths))
-    jobs = [(idx[i::16], states, ctx.work) for i in range(16)]
+    jobs = [(idx[i::16], core.states_for(states, [h for _, h in idx[i::16]]), ctx.work) for i in range(16)]
     nbad = 0
     for part in core.pmap(_replay_job, jobs):
         for j, v, diff in part:
